@@ -4,6 +4,7 @@ import asyncio
 import time
 from dataclasses import asdict, dataclass
 from enum import IntEnum
+from typing import Callable
 from wsgiref.handlers import format_date_time
 
 from repid._utils import FROZEN_DATACLASS, SLOTS_DATACLASS
@@ -37,7 +38,7 @@ class HealthCheckServer:
             self._server = await loop.create_server(
                 lambda: _HttpServerProtocol(
                     endpoint_name=self.server_settings.endpoint_name,
-                    status=self.health_status,
+                    status=lambda: self.health_status,
                 ),
                 host=self.server_settings.address,
                 port=self.server_settings.port,
@@ -63,7 +64,7 @@ class HealthCheckServer:
 
 
 class _HttpServerProtocol(asyncio.Protocol):
-    def __init__(self, endpoint_name: str, status: HealthCheckStatus) -> None:
+    def __init__(self, endpoint_name: str, status: Callable[[], HealthCheckStatus]) -> None:
         super().__init__()
         self.endpoint_name = endpoint_name
         self.status = status
@@ -85,7 +86,8 @@ class _HttpServerProtocol(asyncio.Protocol):
 
     def handle_request(self, method: str, path: str) -> str:
         if method == "GET" and path == self.endpoint_name:
-            content = f"{self.status.value} {self.status.name}"
+            status = self.status()  # the status now, not the one at connection time
+            content = f"{status.value} {status.name}"
         else:
             content = "404 Not Found"
         return (
